@@ -43,10 +43,10 @@ def R1_relaxation(ctx):
     tc = ("call", astar.A + "edge_traversal::EdgeTraversal::total_cost", (pet,))
     A_ = Arith(F)
     A_.items_numeric = False
-    A_.symbols = {g(term): "gp", tc: "c"}
-    got = A_.ev(tent)
+    A_.symbols = {canon_default(g(term)): "gp", tc: "c"}
+    got = A_.ev(canon_default(tent))
     ctx.check(got.equals(Ratio(Poly.sym("gp")) + Ratio(Poly.sym("c"))), "tentative", "tentative g-score is %r, expected g(terminal_vertex(e)) [default INFINITY] + total_cost(traversal of e)" % got, a.body.where(bb), detail=repr(got))
-    ctx.check(exist == g(key), "existing", "existing g-score is not g(tree_key_vertex(e)) with default INFINITY: %s" % short(exist), a.body.where(bb), detail=short(exist))
+    ctx.check(canon_default(exist) == canon_default(g(key)), "existing", "existing g-score is not g(tree_key_vertex(e)) with default INFINITY: %s" % short(exist), a.body.where(bb), detail=short(exist))
     ctx.check(nosite(a.arg(a.ins_cost, 1)) == key and nosite(a.arg(a.ins_cost, 2)) == tent, "g-write", "the g-score written is not (key vertex, tentative)", a.ins_cost.where())
     ctx.check(nosite(a.arg(a.ins_tree, 1)) == key, "tree-write-key", "the tree entry is not keyed by the key vertex", a.ins_tree.where())
     for name, cs in (("tree-insert", a.ins_tree), ("gscore-insert", a.ins_cost), ("requeue", a.requeue)):
@@ -298,6 +298,13 @@ def R5_overrides(ctx):
                 if contains(sub, lambda s: s == conf):
                     has_c = True
                 sel = r.sel.get(("arg", 2))
+                if sel is None and kb.argc >= 2 and "Option<" not in kb.locals[2].get("ty", ""):
+                    # a closure mapping the query's value itself (e.g. `.map(Arc::new)` written as a closure): it must hand the
+                    # value on unmodified — no merge with / extension by the configured entries, no in-place mutation
+                    raw = Terms(kb).return_term()
+                    muts = [s_[2] for s_ in subterms(raw) if s_[0] == "mut"]
+                    okq = r.ret == ("arg", 2) and not muts
+                    ctx.check(okq, "%s:query-unmodified" % key, "the query's %s are altered before reaching the cost model (merged/extended with the configured ones? mutators %s): %s" % (key, muts[:1], short(r.ret)[:160]), kb.where(), detail=short(r.ret)[:80])
                 if sel == "Some":
                     # the query's value must be handed on unmodified
                     okq = r.ret == ("arg", 2)
